@@ -6,8 +6,8 @@ package main
 import (
 	"fmt"
 	"math"
-	"os"
 	"math/big"
+	"os"
 
 	"github.com/dominant-strategies/go-quai/common"
 	"github.com/dominant-strategies/go-quai/consensus/misc"
@@ -23,13 +23,13 @@ import (
 )
 
 type chainCfg struct {
-	Idx       int  `json:"idx"`
-	PreferQi  bool `json:"prefer_qi"`
+	Idx       int   `json:"idx"`
+	PreferQi  bool  `json:"prefer_qi"`
 	Lockup    uint8 `json:"lockup"`
-	LockupCt  bool `json:"lockup_contract"`
-	IndexUtxo bool `json:"index_utxo"`
-	StalePct  int  `json:"stale_pct"`
-	NoFillPct int  `json:"nofill_pct"`
+	LockupCt  bool  `json:"lockup_contract"`
+	IndexUtxo bool  `json:"index_utxo"`
+	StalePct  int   `json:"stale_pct"`
+	NoFillPct int   `json:"nofill_pct"`
 }
 
 func cfgFor(idx int) chainCfg {
@@ -93,6 +93,7 @@ func copyDb(src ethdb.Database, logger *log.Logger) ethdb.Database {
 }
 
 var verboseRefusals = os.Getenv("C07_VERBOSE") != ""
+var overGas = os.Getenv("C07_OVERGAS") != ""
 
 type contractInfo struct {
 	addr common.Address
@@ -118,6 +119,7 @@ type chain struct {
 	out     types.Transactions // own-zone outbound ETXs waiting for delivery
 	utxos   []utxoRef
 	fresh   int
+	script  func(c *chain, i int, b *types.WorkObject) types.Transactions // corpus chains: extra inbound ETXs after block i
 }
 
 func newChain(w *world, cfg chainCfg, rng *hlib.Rng, rep *hlib.Report, logger *log.Logger) (*chain, error) {
@@ -415,7 +417,12 @@ func (c *chain) inbound(r *hlib.Rng, b *types.WorkObject) types.Transactions {
 				to = c.w.qis[r.Intn(3)].addr
 			}
 			oh = originHash(r, loc)
-			data := append([]byte{byte(r.Intn(4))}, c.w.lockupCt.Bytes()...)
+			ct := c.w.lockupCt
+			if len(c.ctrs) > 0 && r.Chance(70) { // a deployed contract: the lockup is recorded (vm.AddNewLock) on both sides
+				ct = c.ctrs[r.Intn(len(c.ctrs))].addr
+				c.rep.Count("inbound/coinbase-contract-with-code")
+			}
+			data := append([]byte{byte(r.Intn(4))}, ct.Bytes()...)
 			if r.Bool() {
 				data = append(data, c.w.eoas[0].addr.Bytes()...)
 			}
@@ -437,7 +444,11 @@ func (c *chain) inbound(r *hlib.Rng, b *types.WorkObject) types.Transactions {
 			c.rep.Count("inbound/coinbase-oddlen")
 		case 8: // transfer with exactly the maximal per-ETX gas limit (block gas limit / 5)
 			to := c.w.eoas[r.Intn(len(c.w.eoas))].addr
-			in = append(in, etx(&types.ExternalTx{To: &to, Gas: b.GasLimit() / 5, Value: big.NewInt(7), EtxType: types.DefaultType,
+			gas := b.GasLimit() / 5
+			if overGas && r.Bool() { // only with C07_OVERGAS set (after the proposed fix): above the per-ETX maximum
+				gas += 1 + uint64(r.Intn(100000))
+			}
+			in = append(in, etx(&types.ExternalTx{To: &to, Gas: gas, Value: big.NewInt(7), EtxType: types.DefaultType,
 				OriginatingTxHash: oh, ETXIndex: idx, Sender: c.w.farQuai[0].addr}))
 			c.rep.Count("inbound/transfer-maxgas")
 		default: // conversion revert
@@ -472,6 +483,10 @@ func (c *chain) afterAppend(b *types.WorkObject) {
 			}
 			if i < len(recs) && recs[i].Status == types.ReceiptStatusSuccessful && len(c.ctrs) < 12 {
 				c.ctrs = append(c.ctrs, contractInfo{recs[i].ContractAddress, kd})
+				if c.cfg.LockupCt && len(c.ctrs) == 1 { // from now on the miner names a contract with code as lockup contract
+					a := recs[i].ContractAddress
+					z.VerifC07SetLockup(c.cfg.Lockup, &a)
+				}
 			}
 		}
 	}
@@ -480,4 +495,29 @@ func (c *chain) afterAppend(b *types.WorkObject) {
 			c.out = append(c.out, e)
 		}
 	}
+}
+
+// ---------- corpus of targeted chains (run first; chain index >= 1000) ----------
+
+type corpusCase struct {
+	name   string
+	blocks int
+	script func(c *chain, i int, b *types.WorkObject) types.Transactions
+}
+
+var corpus = []corpusCase{
+	// An inbound ETX whose gas limit exceeds block gas limit / 5 (any sender in another zone can emit one:
+	// a cross-zone transfer with a large gas limit, or opETX with a zero fee). TransitionDb returns an
+	// ExecutionResult without QuaiFees for it; worker.commitTransaction and StateProcessor.Process add the
+	// nil fee to their running total.
+	{"etx-gas-above-limit", 6, func(c *chain, i int, b *types.WorkObject) types.Transactions {
+		if i != 2 {
+			return nil
+		}
+		to := c.w.eoas[0].addr
+		var oh common.Hash
+		oh[0], oh[2], oh[31] = 0x01, 0x01, 0x77
+		return types.Transactions{etx(&types.ExternalTx{To: &to, Gas: b.GasLimit()/5 + 1, Value: big.NewInt(7), EtxType: types.DefaultType,
+			OriginatingTxHash: oh, ETXIndex: 0, Sender: c.w.farQuai[0].addr})}
+	}},
 }
